@@ -92,7 +92,12 @@ def build(spec, cache_materials=True, with_settings=True):
                       material=lib_material(s['mat'], cache_materials), is_stop=bool(s.get('stop')), **kw)
     K = len(spec['surfs'])
     im = spec['img'].get('mat', {'kind': 'air'})
-    o.add_surface(index=K + 1, material=lib_material(im, cache_materials))
+    ish = spec['img'].get('shape')
+    if ish:
+        o.add_surface(index=K + 1, material=lib_material(im, cache_materials), radius=float(ish['R']),
+                      conic=float(ish.get('k', 0.0)))
+    else:
+        o.add_surface(index=K + 1, material=lib_material(im, cache_materials))
     if with_settings:
         apply_settings(o, spec)
     return o
